@@ -155,10 +155,21 @@ def run(ctx):
     core.lean_phase(ctx)
     rng = ctx.rng
     reqs, metas = [], []
+
+    def flush():
+        outs = ctx.driver.run(reqs) if reqs else []
+        for req, (replay, exp), out in zip(reqs, metas, outs):
+            ctx.count("model_requests")
+            if out.get("ok") != exp:
+                ctx.mismatch("apply(emitted step)", replay, "recorded document", out if "err" in out else "different document")
+        del reqs[:], metas[:]
+
     fam = schemas.family()
     kinds = ["add_mark", "remove_mark", "add_node_mark", "remove_node_mark", "set_node_attribute",
              "set_block_type", "set_node_markup"]
     for si in range(ctx.budget(16, 70)):
+        if len(reqs) >= 15000:
+            flush()     # keep memory bounded in long runs
         bundled = si < len(fam) or rng.random() < 0.4
         info = fam[si % len(fam)] if bundled else schemas.random_schema(rng)
         schema = info.schema
@@ -275,11 +286,7 @@ def run(ctx):
                         bad = f"result fails check(): {err}"
                 if bad:
                     ctx.violation(name, f"{name}: {bad}", dict(replay, result=tr.doc.to_json()))
-    outs = ctx.driver.run(reqs) if reqs else []
-    for req, (replay, exp), out in zip(reqs, metas, outs):
-        ctx.count("model_requests")
-        if out.get("ok") != exp:
-            ctx.mismatch("apply(emitted step)", replay, "recorded document", out if "err" in out else "different document")
+    flush()
     return ctx.finish(
         rule="a case is (schema, document, one mark/attribute/retype operation of Transform with random arguments); bundled-family "
              "and random schemas with arbitrary exclusion relations; non-trivial = the operation emitted at least one step")
